@@ -32,6 +32,7 @@ struct Handle {
   bool hole_seen = false;
   bool just_sought = false; int reads_since_seek = 0;
   bool lap_dirty = false;     // a lapped seek outside twin mode altered the next samples
+  Hasher obs;                 // everything this handle let the caller observe (twin comparison)
 };
 
 struct OpRes {
@@ -50,6 +51,8 @@ struct VfRun {
 
   explicit VfRun(const Plan &p) : plan(p) {}
 
+  // streams whose audio is not granule-consistent with the reference model: page damage, or the 64-sample-block header rewrite
+  bool inexact() const { return sr.damaged || sr.ambiguous_cut; }
   // ---- verdicts
   bool mine(std::initializer_list<const char *> props) { for (auto p : props) if (prop == p) return true; return false; }
   [[noreturn]] void fail(const std::string &site, const std::string &sym, const std::string &detail, std::map<std::string, std::string> facts = {}) {
@@ -96,7 +99,7 @@ struct VfRun {
       r = ov_open_callbacks(&H.sf, H.vf, ib ? initial.data() : nullptr, ib, cb);
     }
     if (r == 0 && !H.part) { H.open = true; H.ever_ok = true; }
-    if (r == 0) H.expect_close = f.i("noclosefn", 0) ? 0 : 1;
+    if (r == 0) H.expect_close = (f.i("noclosefn", 0) && how != 2) ? 0 : 1;   // ov_open installs its own fclose callback
     return r;
   }
 
@@ -130,6 +133,8 @@ struct VfRun {
   long read_float(Handle &H, int len, OpRes &r);
   long read_int(Handle &H, const Rec &op, OpRes &r);
   void oracle_read(Handle &H, const OpRes &r, bool is_int, const Rec &op);
+  bool read_explained_at(Handle &H, const OpRes &r, bool is_int, const Rec &op, int64_t p);
+  int odd_links() const { int n = 0; for (int i = 0; i < sr.nlinks; i++) if (sr.ps.links[i]->len & 1) n++; return n; }
   void oracle_seek(Handle &H, const Rec &op, const std::string &kind, long ret, int64_t t0, int64_t t1, bool lap);
   void oracle_open(Handle &H, long ret);
   void expected_int(const float *const *chan, int nch, int64_t off, int frames, int word, int sgned, int be, std::vector<uint8_t> &lo, std::vector<uint8_t> &hi);
@@ -164,6 +169,7 @@ long VfRun::read_float(Handle &H, int len, OpRes &r) {
     for (int c = 0; c < r.nch; c++) h.f32s(r.pcm[c].data(), r.pcm[c].size());
   }
   h.i64(r.ret); h.i64(r.t1);
+  H.obs.i64(r.ret); H.obs.i64(r.t0); H.obs.i64(r.t1); if (r.ret > 0) { H.obs.i64(r.section); for (int c = 0; c < r.nch; c++) H.obs.f32s(r.pcm[c].data(), r.pcm[c].size()); }
   return r.ret;
 }
 
@@ -178,6 +184,7 @@ long VfRun::read_int(Handle &H, const Rec &op, OpRes &r) {
   r.t1 = ov_pcm_tell(H.vf);
   if (r.ret > 0) h.bytes(r.buf.data(), (size_t)r.ret);
   h.i64(r.ret); h.i64(r.t1);
+  H.obs.i64(r.ret); H.obs.i64(r.t0); H.obs.i64(r.t1); if (r.ret > 0) { H.obs.i64(r.section); H.obs.bytes(r.buf.data(), (size_t)r.ret); }
   return r.ret;
 }
 
@@ -199,10 +206,33 @@ void VfRun::expected_int(const float *const *chan, int nch, int64_t off, int fra
   }
 }
 
+// would this read be exactly right if the true position were p? (used only for the half-rate position slack, see oracle_read)
+bool VfRun::read_explained_at(Handle &H, const OpRes &r, bool is_int, const Rec &op, int64_t p) {
+  int hr = H.hr, hs = hr ? 1 : 0;
+  if (p < 0) return false;
+  if (p >= sr.total) return r.ret == 0;
+  int link = sr.link_of(p); int64_t off = (p - sr.start[link]) >> hs; if ((p - sr.start[link]) & 1) return false;
+  int nch = sr.ps.links[link]->r.ch; int64_t avail = reflen(link, hr) - off;
+  if (avail <= 0) return false;
+  if (r.ret <= 0 || r.section != link) return false;
+  auto &ref = refpcm(link, hr);
+  if (is_int) {
+    int word = (int)op.i("word", 2), sg = (int)op.i("sgned", 1), be = (int)op.i("be", 0); if (word <= 0) return false;
+    int frame = word * nch; if (r.ret % frame) return false; int frames = (int)(r.ret / frame); if (frames > avail) return false;
+    std::vector<const float *> ch(nch); for (int c = 0; c < nch; c++) ch[c] = ref[c].data();
+    std::vector<uint8_t> lo, hi; expected_int(ch.data(), nch, off, frames, word, sg, be, lo, hi);
+    for (size_t i = 0; i < lo.size(); i += word) { bool a = !memcmp(&r.buf[i], &lo[i], word), b = !memcmp(&r.buf[i], &hi[i], word); if (!a && !b) return false; }
+    return true;
+  }
+  if (r.nch != nch || r.ret > avail) return false;
+  for (int c = 0; c < nch; c++) if (memcmp(r.pcm[c].data(), ref[c].data() + off, (size_t)r.ret * sizeof(float))) return false;
+  return true;
+}
+
 // compare one read against the model. Seekable handles: reference at the position ov_pcm_tell reported before the call.
 void VfRun::oracle_read(Handle &H, const OpRes &r, bool is_int, const Rec &op) {
   const char *site = is_int ? "ov_read" : "ov_read_float";
-  bool faultless = !H.io_dirty && !sr.damaged && !H.lap_dirty;
+  bool faultless = !H.io_dirty && !inexact() && !H.lap_dirty;
   if (!faultless) {   // relaxed: may fail or end early, never out-of-contract values
     check(r.ret >= 0 || documented_code(r.ret), {"C03", "C12"}, site, "undocumented-return", fmt("ret=%ld", r.ret));
     return;
@@ -220,9 +250,24 @@ void VfRun::oracle_read(Handle &H, const OpRes &r, bool is_int, const Rec &op) {
   bool skip_content = false;
   if (H.seekable) {
     int64_t T = r.t0;
-    check(T >= 0 && T <= sr.total, P(), site, "tell-out-of-range", fmt("tell=%lld total=%lld", (long long)T, (long long)sr.total));
-    if (T < 0 || T > sr.total) return;
-    if (T == sr.total) {
+    // Half rate: a link of odd length N delivers ceil(N/2) samples and the position advances by two per sample, so the two clauses
+    // of C20 put the position one past the end of every odd-length link that was played through; vorbisfile re-synchronises at the
+    // next packet that carries a granule position. The statement is contradictory there, so the oracle accepts a position that is
+    // ahead by at most one sample per odd-length link, provided the data is exactly the half-rate reference at the corrected position.
+    int slack = hr ? odd_links() : 0;
+    if (slack && (int)op.i("word", 2) > 0) {
+      bool exact0 = read_explained_at(H, r, is_int, op, T);
+      if (!exact0) for (int d = 1; d <= slack; d++) if (read_explained_at(H, r, is_int, op, T - d)) {
+        g_stats.inc("c20.position_ahead_after_odd_link_accepted");
+        int64_t adv = is_int ? r.ret / (std::max(1, (int)op.i("word", 2)) * std::max(1, r.ret > 0 ? sr.ps.links[sr.link_of(std::min(T - d, sr.total - 1))]->r.ch : 1)) : r.ret;
+        check(r.t1 <= r.t0 + 2 * adv && r.t1 >= r.t0 + 2 * adv - slack, P(), site, "tell-advance", fmt("%lld->%lld samples=%lld", (long long)r.t0, (long long)r.t1, (long long)adv));
+        compared_after_seek |= H.just_sought; H.reads_since_seek++; return;
+      }
+    }
+    bool past_odd_end = hr && T > sr.total && T <= sr.total + slack;
+    check((T >= 0 && T <= sr.total) || past_odd_end, P(), site, "tell-out-of-range", fmt("tell=%lld total=%lld", (long long)T, (long long)sr.total));
+    if (T < 0 || (T > sr.total && !past_odd_end)) return;
+    if (T >= sr.total) {
       if (is_int && ((int)op.i("word", 2) <= 0)) { check(r.ret == OV_EINVAL, {"C17"}, site, "bad-word-accepted", fmt("ret=%ld", r.ret)); return; }
       check(r.ret == 0, P(), site, "no-eof-at-total", fmt("tell=total=%lld ret=%ld", (long long)T, r.ret));
       check(r.t1 == r.t0, P(), site, "tell-moved-at-eof", fmt("%lld->%lld", (long long)r.t0, (long long)r.t1));
@@ -270,7 +315,7 @@ void VfRun::oracle_read(Handle &H, const OpRes &r, bool is_int, const Rec &op) {
     }
     for (size_t i = (size_t)r.ret; i < r.buf.size(); i++) check(r.buf[i] == (uint8_t)(0xC5 ^ (i * 7)), {"C17"}, site, "wrote-past-return", fmt("byte %zu ret=%ld", i, r.ret));
     check(r.section == link, P(), site, "wrong-section", fmt("section=%d model=%d", r.section, link));
-    check(r.t1 == r.t0 + ((int64_t)frames << hs) || !H.seekable, P(), site, "tell-advance", fmt("%lld->%lld frames=%d hs=%d", (long long)r.t0, (long long)r.t1, frames, hs));
+    check((r.t1 <= r.t0 + ((int64_t)frames << hs) && r.t1 >= r.t0 + ((int64_t)frames << hs) - (hs ? odd_links() : 0)) || !H.seekable, P(), site, "tell-advance", fmt("%lld->%lld frames=%d hs=%d", (long long)r.t0, (long long)r.t1, frames, hs));
     if (!H.seekable) H.lin_off += frames;
     g_stats.inc("probe.ov_read_compared"); compared_after_seek |= H.just_sought; H.reads_since_seek++;
     return;
@@ -291,14 +336,14 @@ void VfRun::oracle_read(Handle &H, const OpRes &r, bool is_int, const Rec &op) {
     }
   }
   check(r.section == link, P(), site, "wrong-section", fmt("section=%d model=%d", r.section, link));
-  if (H.seekable) check(r.t1 == r.t0 + ((int64_t)r.ret << hs), P(), site, "tell-advance", fmt("%lld->%lld ret=%ld hs=%d", (long long)r.t0, (long long)r.t1, r.ret, hs));
+  if (H.seekable) check(r.t1 <= r.t0 + ((int64_t)r.ret << hs) && r.t1 >= r.t0 + ((int64_t)r.ret << hs) - (hs ? odd_links() : 0), P(), site, "tell-advance", fmt("%lld->%lld ret=%ld hs=%d", (long long)r.t0, (long long)r.t1, r.ret, hs));
   else H.lin_off += r.ret;
   g_stats.inc("probe.read_float_compared"); compared_after_seek |= H.just_sought; H.reads_since_seek++;
   if (link > 0) g_stats.inc("probe.read_in_later_link");
 }
 
 void VfRun::oracle_open(Handle &H, long ret) {
-  if (sr.damaged || H.io_dirty) {
+  if (inexact() || H.io_dirty) {
     check(ret == 0 || documented_code(ret), {"C03", "C12"}, "open", "undocumented-return", fmt("ret=%ld", ret));
     if (ret != 0) {
       bool zero = true; for (size_t i = 0; i < sizeof(OggVorbis_File); i++) if (H.mem[i]) { zero = false; break; }
@@ -356,7 +401,7 @@ long VfRun::do_seek_call(Handle &H, const std::string &kind, const Rec &op, bool
 void VfRun::oracle_seek(Handle &H, const Rec &op, const std::string &kind, long ret, int64_t t0, int64_t t1, bool lap) {
   const char *site = kind.c_str();
   if (!H.seekable) { check(ret == OV_ENOSEEK, {"C10", "C03"}, site, "streaming-seek-not-refused", fmt("ret=%ld", ret)); return; }
-  if (sr.damaged || H.io_dirty) { check(ret == 0 || documented_code(ret), {"C03", "C12"}, site, "undocumented-return", fmt("ret=%ld", ret)); return; }
+  if (inexact() || H.io_dirty) { check(ret == 0 || documented_code(ret), {"C03", "C12"}, site, "undocumented-return", fmt("ret=%ld", ret)); return; }
   int64_t tp = -1; double tex = 0; bool inr = in_range(kind, op, tp, tex);
   std::map<std::string, std::string> facts = {{"hr", std::to_string(H.hr)}, {"lap", lap ? "1" : "0"}};
   if (!inr) {
@@ -394,7 +439,7 @@ void VfRun::oracle_seek(Handle &H, const Rec &op, const std::string &kind, long 
     int64_t bound = 0; for (auto b : sr.boundaries) if (b < lo_t) bound = b; else break;
     // fact for triage: does the page that defines the bound hold nothing but the tail of a packet begun on an earlier page?
     { const PageInfo *best = nullptr; int64_t bg = -1;
-      for (auto &pg : sr.ps.pages) if (pg.link >= 0 && !pg.header && pg.granule >= 0) { int64_t g = sr.start[pg.link] + std::min<int64_t>(pg.granule, sr.ps.links[pg.link]->len); if (g < lo_t && g >= bg) { bg = g; best = &pg; } }
+      for (auto &pg : sr.ps.pages) if (pg.link >= 0 && !pg.header && pg.granule >= 0) { int64_t g = sr.start[pg.link] + std::max<int64_t>(0, std::min<int64_t>(pg.granule - sr.goff[pg.link], sr.ps.links[pg.link]->len)); if (g < lo_t && g >= bg) { bg = g; best = &pg; } }
       facts["best_page_only_continuation"] = (best && best->cont && best->completed == 1) ? "1" : "0"; }
     check(t1 >= bound, {"C08"}, site, "landed-before-previous-page-boundary", fmt("tell=%lld bound=%lld target=%lld", (long long)t1, (long long)bound, (long long)tp), facts);
   }
@@ -409,12 +454,15 @@ void VfRun::halfrate_op(Handle &H, const Rec &op) {
   H.hr_touched = true;
   if (sr.damaged || H.io_dirty) { check(ret == 0 || documented_code(ret), {"C03", "C12"}, "ov_halfrate", "undocumented-return", fmt("ret=%ld", ret)); H.hr = p > 0; return; }
   std::initializer_list<const char *> P = {"C20"};
-  if (flag && sr.has_bs64) {
+  // a streaming handle only knows the link it is in
+  bool must_refuse = H.seekable ? sr.has_bs64 : (H.lin_link < sr.nlinks && sr.ps.links[std::min(H.lin_link, sr.nlinks - 1)]->r.bs64);
+  if (flag && must_refuse) {
     check(ret != 0, P, "ov_halfrate", "not-refused-with-64-sample-blocks", fmt("ret=%ld", ret));
     check(p == 0, P, "ov_halfrate", "flag-set-after-refusal", fmt("halfrate_p=%d", p));
     if (H.seekable) check(t1 == t0, P, "ov_halfrate", "refusal-moved-position", fmt("%lld->%lld", (long long)t0, (long long)t1));
     H.hr = 0; g_stats.inc("probe.halfrate_refused"); return;
   }
+  if (sr.has_bs64 && !H.seekable) { H.hr = p > 0; H.io_dirty = true; return; }   // streaming handle in an ordinary link of a chain that has a 64-sample link further on: it cannot know; nothing exact to say from here
   check(ret == 0, P, "ov_halfrate", "toggle-failed", fmt("flag=%d ret=%ld", flag, ret));
   check(p == (flag ? 1 : 0), P, "ov_halfrate", "flag-mismatch", fmt("flag=%d p=%d", flag, p));
   if (H.seekable && ret == 0) {
